@@ -91,3 +91,28 @@ def _trans(f, X):
     if hasattr(f, "deriv2"):
         transformed.deriv2 = lambda r: f.deriv2(r + X)
     return transformed
+
+
+class Scaled(object):
+    """stateful callable k * f(r) whose k is re-assigned between writes (a fitting loop re-parametrising a model)"""
+
+    def __init__(self, f):
+        self.f, self.k = f, 1.0
+
+    def __call__(self, r):
+        return self.k * self.f(r)
+
+
+class ScaledD(Scaled):
+    def deriv(self, r):
+        return self.k * self.f.deriv(r)
+
+
+def scaled(f):
+    return (ScaledD if hasattr(f, "deriv") else Scaled)(f)
+
+
+def scaled_potdef(pd, k):
+    """the definition of k * pd for r >= 0"""
+    const = {"ranges": [{"m": ">=", "s": 0.0, "body": {"k": "form", "name": "constant", "p": [k]}}]}
+    return {"ranges": [{"m": ">=", "s": 0.0, "body": {"k": "mod", "m": "product", "args": [const, pd]}}]}
